@@ -158,7 +158,7 @@ def main(tier, seed):
     cov = aggregate(results)
     cov["rule"] = ("geometries (data width 8-64, granularity <= width, 1/2/4 rows) x writable x init image; full "
                    "BFS; letters = all adr/cyc/stb/we/sel x 1-3 lane-tagged data tokens")
-    return finish(PID, tier, seed, "model_checking", cov, ASSUMPTIONS, t0, results)
+    return finish(PID, tier, seed, "model_checking", cov, ASSUMPTIONS, t0, results, min_explored=int(0.6 * len(results)))
 
 
 ASSUMPTIONS = [
